@@ -174,6 +174,24 @@ fn oracle_grid(ctx: &mut Ctx, residue: u32) {
 
 pub fn run(ctx: &mut Ctx) {
     let quick = ctx.quick();
+    // the module's own generators (also judged by C15): with the random source replaced by a known tape they hand
+    // out exactly its next bytes - the value this property's functions are then fed with
+    {
+        use wow_srp::verif_hooks::rand as vr;
+        let mut r2 = ctx.rng("generators");
+        for k in 0..(if ctx.quick() { 200 } else { 5000 }) {
+            let tape = if k == 0 { vec![0xffu8; 32] } else if k == 1 { vec![0u8; 32] } else { r2.bytes(32) };
+            ctx.oracle_runs += 1;
+            vr::take_log(); vr::install_tape(&tape);
+            let r = catch(|| (wow_srp::pin::get_pin_grid_seed(), wow_srp::pin::get_pin_salt()));
+            let left = vr::remove_tape().len(); vr::take_log();
+            match r {
+                Some((seed, salt)) if seed.to_le_bytes() == tape[0..4] && salt[..] == tape[4..20] && left == 12 => {}
+                other => ctx.fail("generators", format!("{{\"what\":\"get_pin_grid_seed / get_pin_salt do not hand out the next 4 / 16 bytes of the random source\",\"tape\":\"{}\",\"got\":{}}}", hex(&tape), jstr(&format!("{:?}", other)))),
+            }
+        }
+    }
+
     let mut rng = ctx.rng("corr");
     let f = FACT10 as u32;
 
